@@ -50,61 +50,87 @@ func jsConvSchema(r *h.Rand) (*gen.Schema, []*gen.FieldT) {
 
 func isJSConv(f *gen.FieldT) bool { return len(f.Annos) > 0 }
 
+type jsConvCaseT struct {
+	sc            *gen.Schema
+	desc          *thrift.TypeDescriptor
+	doc           string
+	want          *tref.Val
+	quotedNumeric bool
+	emptySpelled  map[int16]bool
+	mappedI16     bool // a mapped i16 field is present with a non-empty spelling (subject of C02-K2)
+}
+
+func jsConvCase(cs *h.Case) *jsConvCaseT {
+	sc, fields := jsConvSchema(cs.R)
+	cs.Info("idl", sc.IDL())
+	desc, _, err := ParseRoot(sc, thrift.NewDefaultOptions())
+	if err != nil {
+		cs.Viol("j2t:js-conv:parse-idl", "err", err)
+		return nil
+	}
+	root := structType(sc.Root)
+	want := tref.Struct()
+	var ms []string
+	quotedNumeric := false
+	emptySpelled := map[int16]bool{}
+	for _, f := range fields {
+		if !cs.R.Chance(80) {
+			if f.Req == gen.ReqRequired {
+				// keep the document conforming
+			} else {
+				continue
+			}
+		}
+		v := gen.GenVal(cs.R, f.T, gen.ValCfg{MaxStr: 20, PlainStr: true}, 2)
+		if f.T.T == tref.BYTE && v.I < 0 {
+			v.I = -(v.I + 1)
+		}
+		var txt string
+		switch f.T.T {
+		case tref.STRING:
+			txt = RenderJSON(cs.R, v, f.T, JSpell{}, JOpts{})
+		case tref.DOUBLE:
+			if v.F == 0 && math.Signbit(v.F) {
+				v.F = 0 // the sign of zero through the native scanner is C02-K1's subject
+			}
+			txt = strconv.FormatFloat(v.F, 'g', -1, 64)
+			if isJSConv(f) && cs.R.Bool() {
+				txt = `"` + txt + `"`
+				quotedNumeric = true
+			}
+		default:
+			txt = strconv.FormatInt(v.I, 10)
+			if isJSConv(f) && cs.R.Bool() {
+				txt = `"` + txt + `"`
+				quotedNumeric = true
+				if v.I == 0 && cs.R.Chance(30) {
+					txt = `""` // documented: the empty string stands for 0
+					emptySpelled[f.ID] = true
+				}
+			}
+		}
+		ms = append(ms, fmt.Sprintf("%q:%s", f.Name, txt))
+		want.Fs = append(want.Fs, tref.Field{ID: f.ID, V: v})
+	}
+	doc := "{" + strings.Join(ms, ",") + "}"
+	cs.Info("json", doc)
+	k := &jsConvCaseT{sc: sc, desc: desc, doc: doc, want: want, quotedNumeric: quotedNumeric, emptySpelled: emptySpelled}
+	for _, f := range want.Fs {
+		if fd := sc.Root.Field(f.ID); fd.T.T == tref.I16 && isJSConv(fd) && !emptySpelled[f.ID] {
+			k.mappedI16 = true
+		}
+	}
+	_ = root
+	return k
+}
+
 func runJSConvJ2T(c *h.Ctx) {
 	c.Run("js-conv", c.N(3000, 100000), func(cs *h.Case) {
-		sc, fields := jsConvSchema(cs.R)
-		cs.Info("idl", sc.IDL())
-		desc, _, err := ParseRoot(sc, thrift.NewDefaultOptions())
-		if err != nil {
-			cs.Viol("j2t:js-conv:parse-idl", "err", err)
+		k := jsConvCase(cs)
+		if k == nil {
 			return
 		}
-		root := structType(sc.Root)
-		want := tref.Struct()
-		var ms []string
-		quotedNumeric := false
-		emptySpelled := map[int16]bool{}
-		for _, f := range fields {
-			if !cs.R.Chance(80) {
-				if f.Req == gen.ReqRequired {
-					// keep the document conforming
-				} else {
-					continue
-				}
-			}
-			v := gen.GenVal(cs.R, f.T, gen.ValCfg{MaxStr: 20, PlainStr: true}, 2)
-			if f.T.T == tref.BYTE && v.I < 0 {
-				v.I = -(v.I + 1)
-			}
-			var txt string
-			switch f.T.T {
-			case tref.STRING:
-				txt = RenderJSON(cs.R, v, f.T, JSpell{}, JOpts{})
-			case tref.DOUBLE:
-				if v.F == 0 && math.Signbit(v.F) {
-					v.F = 0 // the sign of zero through the native scanner is C02-K1's subject
-				}
-				txt = strconv.FormatFloat(v.F, 'g', -1, 64)
-				if isJSConv(f) && cs.R.Bool() {
-					txt = `"` + txt + `"`
-					quotedNumeric = true
-				}
-			default:
-				txt = strconv.FormatInt(v.I, 10)
-				if isJSConv(f) && cs.R.Bool() {
-					txt = `"` + txt + `"`
-					quotedNumeric = true
-					if v.I == 0 && cs.R.Chance(30) {
-						txt = `""` // documented: the empty string stands for 0
-						emptySpelled[f.ID] = true
-					}
-				}
-			}
-			ms = append(ms, fmt.Sprintf("%q:%s", f.Name, txt))
-			want.Fs = append(want.Fs, tref.Field{ID: f.ID, V: v})
-		}
-		doc := "{" + strings.Join(ms, ",") + "}"
-		cs.Info("json", doc)
+		sc, desc, doc, want, quotedNumeric, emptySpelled := k.sc, k.desc, k.doc, k.want, k.quotedNumeric, k.emptySpelled
 		mapping := cs.R.Chance(75)
 		o := conv.Options{EnableValueMapping: mapping}
 		cv := j2t.NewBinaryConv(o)
@@ -159,7 +185,6 @@ func runJSConvJ2T(c *h.Ctx) {
 			cs.Cover("js_conv_j2t_quoted_number_ok")
 		}
 		cs.Distinct(fmt.Sprintf("jsc-%v-%v-%s", mapping, quotedNumeric, shapeKey(want)[:min(len(shapeKey(want)), 14)]))
-		_ = root
 	})
 }
 
